@@ -69,31 +69,31 @@ example : buildLine (exElem [['b'], ['a']]) = buildLine (exElem [['a'], ['b']]) 
 
 /-! ### exe-wrapper scratch-file name -/
 
-theorem envHashInput_perm_invariant {l₁ l₂ : List (Str × Str)} (nd : (l₁.map Prod.fst).Nodup)
-    (p : l₁ ~ l₂) : envHashInput l₁ = envHashInput l₂ := by
+/-- the hashed text does not depend on the iteration order of the `unset_vars` set (the operations
+themselves are an ordered list: program order) -/
+theorem envHashInput_perm_invariant (R : List EnvOp × List Str → Str) (ops : List EnvOp)
+    {u₁ u₂ : List Str} (p : u₁ ~ u₂) : envHashInput R ops u₁ = envHashInput R ops u₂ := by
   unfold envHashInput
-  have hk : sortedStrs (l₁.map Prod.fst) = sortedStrs (l₂.map Prod.fst) := sortedStrs_perm (p.map _)
-  have hl : ∀ k, l₁.lookup k = l₂.lookup k := lookup_perm nd p
-  simp only [hk, hl]
+  rw [sortedStrs_perm p]
 
-/-- the pickle name does not depend on the order in which the environment dict is iterated -/
-theorem wrapperName_perm_invariant (H : Str → Str) (ctx : GenCtx) (b c w cap f : Str)
-    {l₁ l₂ : List (Str × Str)} (nd : (l₁.map Prod.fst).Nodup) (p : l₁ ~ l₂) :
-    wrapperName H ctx b (some l₁) c w cap f = wrapperName H ctx b (some l₂) c w cap f := by
+/-- the pickle name does not depend on the order in which the unset set is iterated -/
+theorem wrapperName_perm_invariant (H : Str → Str) (R : List EnvOp × List Str → Str) (ctx : GenCtx)
+    (b c w cap f : Str) (ops : List EnvOp) {u₁ u₂ : List Str} (p : u₁ ~ u₂) :
+    wrapperName H R ctx b (some (ops, u₁)) c w cap f = wrapperName H R ctx b (some (ops, u₂)) c w cap f := by
   unfold wrapperName
   simp only []
-  rw [envHashInput_perm_invariant nd p]
+  rw [envHashInput_perm_invariant R ops p]
 
 /-- the name is a function of the serialised content alone: not of identifiers minted during the
 run, nor of how many wrappers were generated before (so command lines are stable over
 regenerations) -/
-theorem wrapper_name_function_of_content (H : Str → Str) (ctx₁ ctx₂ : GenCtx) (b : Str)
-    (env : Option (List (Str × Str))) (c w cap f : Str) :
-    wrapperName H ctx₁ b env c w cap f = wrapperName H ctx₂ b env c w cap f := rfl
+theorem wrapper_name_function_of_content (H : Str → Str) (R : List EnvOp × List Str → Str) (ctx₁ ctx₂ : GenCtx)
+    (b : Str) (env : Option (List EnvOp × List Str)) (c w cap f : Str) :
+    wrapperName H R ctx₁ b env c w cap f = wrapperName H R ctx₂ b env c w cap f := rfl
 
-theorem wrapperName_fresh_invariant (H : Str → Str) (n : Nat) (fresh₁ fresh₂ : Nat → Str) (b : Str)
-    (env : Option (List (Str × Str))) (c w cap f : Str) :
-    wrapperName H ⟨n, fresh₁⟩ b env c w cap f = wrapperName H ⟨n, fresh₂⟩ b env c w cap f := rfl
+theorem wrapperName_fresh_invariant (H : Str → Str) (R : List EnvOp × List Str → Str) (n : Nat)
+    (fresh₁ fresh₂ : Nat → Str) (b : Str) (env : Option (List EnvOp × List Str)) (c w cap f : Str) :
+    wrapperName H R ⟨n, fresh₁⟩ b env c w cap f = wrapperName H R ⟨n, fresh₂⟩ b env c w cap f := rfl
 
 /-! ### `_dump_c_header` -/
 
@@ -248,6 +248,31 @@ theorem getAllDependencies_mem (df : List (Str × List Str)) (name x : Str) :
     x ∈ getAllDependencies df name ↔ ∃ t, t ∈ reachN df df.length [name] ∧ x ∈ depsAt df t := by
   unfold getAllDependencies
   rw [mem_sortedSet, mem_flatMap]
+
+/-! ### pkg-config `Requires:` lines -/
+
+/-- `format_reqs` does not depend on the iteration order of any `version_reqs[name]` set -/
+theorem formatReqs_perm_invariant (reqs : List Str) {v₁ v₂ : Str → List Str} (h : ∀ n, v₁ n ~ v₂ n) :
+    formatReqs reqs v₁ = formatReqs reqs v₂ := by
+  unfold formatReqs
+  congr 2
+  funext name
+  have e : (v₁ name).isEmpty = (v₂ name).isEmpty := by
+    have := (h name).length_eq
+    cases h₁ : v₁ name <;> cases h₂ : v₂ name <;> simp_all
+  rw [e, sortedStrs_perm (h name)]
+
+def formatReqsUnsorted_perm_invariant_full : Prop :=
+  ∀ (reqs : List Str) (v₁ v₂ : Str → List Str), (∀ n, v₁ n ~ v₂ n) →
+    formatReqsUnsorted reqs v₁ = formatReqsUnsorted reqs v₂
+
+/-- without `sorted()`: one package, two constraints, two iteration orders, two `Requires:` lines -/
+theorem formatReqsUnsorted_perm_invariant_counterexample : ¬ formatReqsUnsorted_perm_invariant_full := by
+  intro h
+  have := h [['f']] (fun _ => [">=1".toList, "<2".toList]) (fun _ => ["<2".toList, ">=1".toList])
+    (fun _ => Perm.swap _ _ _)
+  revert this
+  decide
 
 /-! ### cached compiler checks: a reconfigure gives the verdict a fresh configuration gives -/
 
